@@ -159,6 +159,8 @@ def tree(work, tier):
             plan.append("%s||%d|2|%d|warm" % (rng.choice(clock), 3, 300))
             d = rng.choice([7, 8, 9])
             plan.append("%s||%d|%d|%d|fresh" % (rng.choice(general), d, d - 1, 1500))
+            # every table entry evicted when the recorded iteration starts: pv nodes without an entry deepen internally
+            plan.append("%s||%d|%d|%d|evict" % (rng.choice(general), 8, 7, 1200))
         pf = os.path.join(work, "plan.%d.txt" % k)
         open(pf, "w").write("\n".join(plan) + "\n")
         out = os.path.join(work, "tree.%d.ndjson" % k)
@@ -185,9 +187,9 @@ def tree(work, tier):
     cnt["design_trees"] = dres["engine"]["distinct"]
     cnt["design_trees_with_pruning"] = dres["prune_engine"]["distinct"]
     lines = core.count_lines(shards)
-    if cnt.get("go", 0) + cnt.get("n", 0) + cnt.get("x", 0) + nshards * per * 5 != lines:
+    if cnt.get("go", 0) + cnt.get("n", 0) + cnt.get("x", 0) + nshards * per * 6 != lines:
         raise InfraError("tree monitor consumed %d of %d lines" % (cnt.get("go", 0) + cnt.get("n", 0) + cnt.get("x", 0), lines))
-    for k in ("qentry", "null", "capture_steps", "drawn_nodes", "repeated_nodes", "mated_nodes", "rule_values", "stopped_exits"):
+    for k in ("qentry", "null", "iid", "capture_steps", "drawn_nodes", "repeated_nodes", "mated_nodes", "rule_values", "stopped_exits"):
         if cnt.get(k, 0) == 0:
             raise InfraError("vacuous search-tree run: no %s observed" % k)
     return dict(viols=viols, counters=cnt, states=st["distinct"], spec=["SearchTree.tla", "TreeTrace.tla", "AlphaBeta.tla"],
